@@ -52,11 +52,48 @@ def gen_late(rnd, sid):
                 exc_handler=False, run_empty=True, deliver_at=[])
 
 
+def gen_late_ready(rnd, sid):
+    """a screen is asking for input; the application registers handlers of its own for InputReadySignal - before run() and, from a handler, while the screen already
+    waits (i.e. after the InputHandler registered its own): every answered line reaches each of them"""
+    c = gen_case(rnd, "tame", sid)
+    c["stdin"] = [rnd.choice(["x", "r", "1", "", "zz"]) for _ in range(rnd.randint(3, 9))]
+    n = len(c["handlers"])
+    c["handlers"] = list(c["handlers"]) + [dict(cls="InputReady", hid=n, data=None, scripts=[[]] * 40),
+                                           dict(cls="InputReady", hid=n + 1, data=rnd.choice([None, 7]), scripts=[[]] * 40, late=True),
+                                           dict(cls="U0", hid=n + 2, data=None, scripts=[[["reg_handler", n + 1]], []])]
+    c["init"] = list(c["init"]) + [["enq", "U0", 1, None, sid.next()]]
+    return c
+
+
+def ready_rule(case, obs):
+    """every successful answer (a line handed to input()) was dispatched to every application handler registered for InputReadySignal before that line was read"""
+    x = X(case, obs)
+    mine = [h for h in case.get("handlers") or [] if h["cls"] == "InputReady"]
+    if not mine or obs["outcome"][0] == "fuel": return None
+    # a dispatch that is still in progress at the end (its input() opened a modal screen / a processing call and never came back) has not reached the later
+    # handlers yet: the rule is applied to runs without such nesting
+    if any(ev[0] == "api" and ev[1] in ("push_modal", "proc", "new_loop", "get_user_input") for i, ev, ctx in x.events()): return None
+    for h in mine:
+        reg = 0
+        if h.get("late"):
+            reg = next((i for i, ev, ctx in x.events() if ev[0] == "api<" and ev[1] == "reg_handler"), None)
+            if reg is None: continue
+        reads = [i for i, ev, ctx in x.events() if ev[0] == "read" and i > reg]
+        if not reads: continue
+        inputs = sum(1 for i, ev, ctx in x.events() if ev[0] == "cb" and ev[2] == "input" and i > reads[0])
+        calls = sum(1 for i, ev, ctx in x.events() if ev[0] == "H" and ev[1] == h["hid"] and i > reg)
+        if obs["outcome"][0] in ("returned", "killed", "raised") or x.force_quit_index() is not None:
+            inputs -= 1           # the answer that ended the run: the exit request aborts the dispatch it was raised in (C09)
+        if calls < inputs:
+            return "%d lines read after handler %d was registered for InputReadySignal reached input(), but the handler was invoked only %d times" % (inputs, h["hid"], calls)
+    return None
+
+
 def generate(rnd, tier):
     n = 500 if tier == "quick" else 6000
     sid = SidCounter()
     cases = [gen_c02(rnd, sid) for _ in range(n)] + [gen_case(rnd, "loop", sid) for _ in range(n // 2)] + [gen_case(rnd, "app", sid) for _ in range(n // 4)]
-    cases += [gen_late(rnd, sid) for _ in range(n // 20)]
+    cases += [gen_late(rnd, sid) for _ in range(n // 20)] + [gen_late_ready(rnd, sid) for _ in range(n // 10)]
     if tier == "thorough":
         from harness.gen.exhaustive import loop_programs
         cases += list(loop_programs(sid))          # small-scope exhaustive: 3 663 programs
@@ -64,6 +101,8 @@ def generate(rnd, tier):
 
 
 def monitor(case, obs):
+    v = ready_rule(case, obs)
+    if v: return v
     x = X(case, obs)
     sid_cls = {}
     for i, ev, ctx in x.events():
